@@ -22,6 +22,9 @@ pub struct Scn {
     /// fault: the capture source ends before these frame indices and a new capture run starts on the same instances
     #[serde(default)]
     pub boundaries: Vec<usize>,
+    /// which rewrite of the signature database every analyzer of the run is given (0 = the bundled one)
+    #[serde(default)]
+    pub db_variant: u32,
 }
 
 pub struct C20;
@@ -135,10 +138,14 @@ impl Prop for C20 {
             Tier::Thorough => (0..16).collect(),
         };
         let boundaries = if r.chance(1, 4) { (0..r.urange(1, 3)).map(|_| r.usize_below(trace.len() + 1)).collect() } else { vec![] };
-        Scn { cap: *r.pick(&[32usize, 100, 1000]), trace, configs, boundaries }
+        Scn { cap: *r.pick(&[32usize, 100, 1000]), trace, configs, boundaries, db_variant: if r.chance(1, 4) { 1 + r.below(sut::DB_VARIANTS as u64) as u32 } else { 0 } }
     }
 
     fn run(s: &Scn, st: &mut RunStats) -> Result<(), Violation> {
+        sut::set_db_variant(s.db_variant);
+        if s.db_variant != 0 {
+            st.fault("rewritten_signature_database");
+        }
         st.evals = 0;
         let mut saw = (false, false, false, false);
         for &cfgbits in &s.configs {
@@ -191,6 +198,16 @@ impl Prop for C20 {
                 let l = if l_on { Some(stateless_tls(&p.frame)) } else { None };
                 for o in &u.obs {
                     st.ev(&o.text);
+                    if o.kind == "http_request" {
+                        for d in ["diagnosis: Generic", "diagnosis: Dishonest", "diagnosis: Anonymous", "diagnosis: None"] {
+                            if o.text.contains(d) {
+                                st.probe(&format!("http_request_{}", d.replace(": ", "_").to_lowercase()));
+                            }
+                        }
+                        if o.text.contains("browser: Some(") {
+                            st.probe("http_request_matched_a_database_signature");
+                        }
+                    }
                 }
                 if p.conn >= usize::MAX - 64 {
                     saw.3 = true;
